@@ -9,7 +9,7 @@ from . import tlaval
 
 VERIF = os.path.dirname(os.path.dirname(os.path.abspath(__file__)))
 SPEC = os.path.join(VERIF, "spec")
-OUT = os.path.join(VERIF, "out")
+OUT = os.environ.get("VERIF_OUT_DIR") or os.path.join(VERIF, "out")
 JAR = "/opt/veriftools/tla/tla2tools.jar:/opt/veriftools/tla/CommunityModules-deps.jar"
 LIBPATH = os.pathsep.join(os.path.join(SPEC, d) for d in ("core", "api", "mc", "trace"))
 
